@@ -59,6 +59,8 @@ def dopts(rng, tier="quick"):
 async def check_request(ctx, s, engine, req, sdl, require_valid=True):
     st = ctx.stats
     w_ref, w_eng = X.make_worlds(s, req)
+    if req.wseed % 5 == 0:
+        w_ref.p_null_nonnull = w_eng.p_null_nonnull = 0.04
     case = dict(req.describe(), sdl=sdl)
     try:
         ref = X.run_reference(s, req, w_ref)
